@@ -74,6 +74,8 @@ NumCases ==
         C("format_time", <<L(<<"x">>)>>), C("format_time", <<Num(Frac)>>), C("format_time", <<Num(Neg(5))>>) >>
 Dates == <<Date1, Date2, Date3, Stamp>>
 DateCases == Unary("year", Dates) \o Unary("month", Dates) \o Unary("day", Dates) \o Unary("dow", Dates)
+             \o << C("year", <<L(<<"r","e","p","-","2","0","2","3","-","1","2","-","3","1",".","t","x","t">>)>>), C("day", <<L(<<"d","u","e"," ","2","0","2","4","-","0","2","-","2","9">>)>>),
+                    C("month", <<L(<<"2","0","1","7","-","0","5","-","0","1","x">>)>>), C("dow", <<L(<<"x","2","0","1","7","-","0","5","-","0","1">>)>>) >>
              \o << C("year", <<L(NotDate)>>), C("month", <<L(Empty)>>), C("day", <<L(<<"2","0","1","7">>)>>), C("dow", <<L(NotDate)>>) >>
 NestedCases ==
   << C("length", <<C("substr", <<C("upper", <<L(Hello)>>), Num(D(2)), Num(D(3))>>)>>),
